@@ -38,6 +38,8 @@ if HAS_BOTTLENECK:
             Array with the axes being operated on moved into the last
             dimension.
         """
+        # negative axes count from the last one
+        axis = tuple(int(i) % array.ndim for i in axis)
         other_axes = tuple(i for i in range(array.ndim) if i not in axis)
 
         # Move the specified axes to the last positions
